@@ -29,9 +29,8 @@ def step1 (st : St1) : Ev → Except Err St1
     | some x, none => .ok { st with sa := st.sa.tail, ra := st.ra ++ [(x, j)] }
     | none, some y => .ok { st with sd := st.sd.tail, rd := st.rd ++ [(y, j)] }
     | some x, some y =>
-      if y < x then .ok { st with sa := st.sa.tail, ra := st.ra ++ [(x, j)] }
-      else if x < y then .ok { st with sd := st.sd.tail, rd := st.rd ++ [(y, j)] }
-      else .error .typeError
+      if x < y then .ok { st with sd := st.sd.tail, rd := st.rd ++ [(y, j)] }
+      else .ok { st with sa := st.sa.tail, ra := st.ra ++ [(x, j)] }
 
 def run1 : St1 → List Ev → Except Err St1
   | st, [] => .ok st
@@ -133,7 +132,8 @@ theorem run1_bal {w : List Ev} {r : List SSpan} (hb : Bal w r) :
         | nil => simp [step1, hsd]
         | cons y t =>
           have := hlt y (by simp [hsd])
-          simp [step1, hsd, this]
+          have h2 : ¬ i < y := by omega
+          simp [step1, hsd, h2]
       simp only [run1, hstep]
       rw [ihw { st with ra := st.ra ++ adds ru ++ [(i, j)], rd := st.rd ++ dels ru } hmw (hn.sub hsubw) (hp.sub hsubw)]
       simp
@@ -156,8 +156,7 @@ theorem run1_bal {w : List Ev} {r : List SSpan} (hb : Bal w r) :
         | nil => simp [step1, hsa]
         | cons y t =>
           have := hlt y (by simp [hsa])
-          have h2 : ¬ i < y := by omega
-          simp [step1, hsa, this, h2]
+          simp [step1, hsa, this]
       simp only [run1, hstep]
       rw [ihw { st with ra := st.ra ++ adds ru, rd := st.rd ++ dels ru ++ [(i, j)] } hmw (hn.sub hsubw) (hp.sub hsubw)]
       simp
@@ -316,18 +315,15 @@ theorem stepEv_proj (i : Nat) (st : Bufs) (h : Hint) :
       · cases h1; exact ⟨by rw [hA x]; rfl, hA' x⟩
     · rename_i x y
       simp only [tokOf, Mark.ev, stepEv, step1, ht1, ht2, ha, hd, hsa, hsd]
-      by_cases h1 : y < x
+      by_cases h1 : x < y
       · simp only [h1, if_true]
+        refine ⟨fun s1 h1 => ⟨_, rfl, ?_, hD' y⟩, fun st' h1 => ?_, fun e h1 => by cases h1⟩
+        · cases h1; exact hD y
+        · cases h1; exact ⟨by rw [hD y]; rfl, hD' y⟩
+      · simp only [h1, if_false]
         refine ⟨fun s1 h1 => ⟨_, rfl, ?_, hA' x⟩, fun st' h1 => ?_, fun e h1 => by cases h1⟩
         · cases h1; exact hA x
         · cases h1; exact ⟨by rw [hA x]; rfl, hA' x⟩
-      · by_cases h2 : x < y
-        · simp only [h1, h2, if_true, if_false]
-          refine ⟨fun s1 h1 => ⟨_, rfl, ?_, hD' y⟩, fun st' h1 => ?_, fun e h1 => by cases h1⟩
-          · cases h1; exact hD y
-          · cases h1; exact ⟨by rw [hD y]; rfl, hD' y⟩
-        · simp only [h1, h2, if_false]
-          refine ⟨fun s1 h1 => (by cases h1), fun st' h1 => (by cases h1), fun e h1 => (by cases h1; rfl)⟩
 
 theorem evsOf_cons_same (i : Nat) (h : Hint) (rest : List (Nat × Hint)) :
     evsOf h.label ((i, h) :: rest) = h.mark.ev i :: evsOf h.label rest := by
